@@ -518,7 +518,7 @@ pub async fn run_prop(cli: &Cli) -> i32 {
     run(cli, &mut report).await;
     if cli.prop == "C13" {
         // only: is every connection charged to its own effective address, independent of other keys
-        report.retain_violations(|sig| sig.starts_with("refused-although-admissible") || sig.starts_with("served-although-over-limit") || sig.starts_with("burst-admission-count"));
+        report.retain_violations(|sig| sig.starts_with("refused-although-admissible") || sig.starts_with("served-although-over-limit") || sig.starts_with("burst-admission-count") || sig.starts_with("config-wiring/configured-limit") || sig.starts_with("config-wiring/configured-window"));
     }
     report.finish()
 }
